@@ -1,0 +1,25 @@
+//go:build verif
+
+// Contracts for package object (comment-only; read by /verif/vf, see /verif/DESIGN.md).
+
+package object
+
+//@ pred absInt(o) := ite(o < 0, 0 - o, o)
+//@ pred tzStr(o) := ite(o < 0, "-", "+") + fmtd(absInt(o) / 3600, 2) + fmtd((absInt(o) / 60) % 60, 2)
+
+//@ func Type.String
+//@   returns str
+//@   pure
+//@   ensures [table] {C01,C05} (t == BlobObject ==> str == "blob") && (t == TreeObject ==> str == "tree") && (t == CommitObject ==> str == "commit") && (t == TagObject ==> str == "tag")
+//@   ensures [other] {C01} t != BlobObject && t != TreeObject && t != CommitObject && t != TagObject ==> str == "undefined"
+
+//@ func NewType
+//@   returns t, err
+//@   pure
+//@   ensures [table] {C01,C05,C19} (typeString == "blob" ==> t == BlobObject && err == nil) && (typeString == "tree" ==> t == TreeObject && err == nil) && (typeString == "commit" ==> t == CommitObject && err == nil) && (typeString == "tag" ==> t == TagObject && err == nil)
+//@   ensures [reject] {C01,C19} typeString != "blob" && typeString != "tree" && typeString != "commit" && typeString != "tag" ==> err != nil && t == UndefinedObject
+
+//@ func Sign.String
+//@   returns str
+//@   pure
+//@   ensures [format] {C12,C02} str == s.Name + " <" + s.Email + "> " + fmtd(time_unix(s.Timestamp), 0) + " " + tzStr(time_off(s.Timestamp))
